@@ -41,6 +41,8 @@ pub struct Row {
     /// kinds of those two templates (copied for cheap symbolic lookup)
     pub sat_k: u8,
     pub sat_m_k: u8,
+    pub plan_k: u8,
+    pub plan_m_k: u8,
     /// dissatisfaction half of the root node (hook H2), both modes
     pub dis: u8,
     pub dis_m: u8,
